@@ -294,6 +294,15 @@ fn run(op: &str, a: &[&str]) -> String {
             };
             format!("ok {}", hrounded(&r))
         }),
+        // fcmp <base> <mode> <sig1> <exp1> <sig2> <exp2>: Ord of two floats of one base, both call directions
+        // (the shortcut of repr_cmp_same_base goes through the digit ESTIMATES, which differ between the std / no_std
+        // estimators and between word sizes: the answer must not)
+        "fcmp" => with_float!(a[0], a[1], |R, B| {
+            let x = FBig::<R, B>::from_repr(repr_of::<B>(a[2], a[3]), Context::new(0));
+            let y = FBig::<R, B>::from_repr(repr_of::<B>(a[4], a[5]), Context::new(0));
+            let c = |o: core::cmp::Ordering| match o { core::cmp::Ordering::Less => "lt", core::cmp::Ordering::Equal => "eq", core::cmp::Ordering::Greater => "gt" };
+            format!("ok {} {}", c(x.cmp(&y)), c(y.cmp(&x)))
+        }),
         // fx <sub> <base> <mode> <precision> <sig1> <exp1> [<sig2> <exp2>]: Context::mul / add / sub / sqrt with exponents anywhere
         // in isize (signed hex down to -8000000000000000).  The answer carries xr=1 when the exponents of the two factors of a
         // product do not add up within isize (the true result is not representable: open finding
